@@ -1,7 +1,9 @@
-(* C09 -- followers apply the leader's log exactly and converge.  Statements only; proofs in Repl/ReplProofs.v (ring) and
-   Repl/SyncProofs.v (protocol).  Models: Repl/Ring.v (ReplicationBufferQueue), Repl/Sync.v (SYNC protocol). *)
+(* C09 -- followers apply the leader's log exactly and converge.  Statements only; proofs in Repl/ReplProofs.v (ring),
+   Repl/SyncProofs.v (protocol), Repl/Transfer.v (boundary of the full transfer on rotated logs), Repl/Handover.v (lock
+   hand-over of Aof.PushLock).  Models: Repl/Ring.v (ReplicationBufferQueue), Repl/Sync.v (SYNC protocol),
+   Transfer.send_files (the sendFiles closure), Handover.hstep (interleavings of PushLock). *)
 From Coq Require Import List NArith Bool PeanoNat.
-From Slock Require Import Base.Util Repl.Ring Repl.ReplProofs Repl.Sync Repl.SyncProofs.
+From Slock Require Import Base.Util Repl.Ring Repl.ReplProofs Repl.Sync Repl.SyncProofs Repl.Transfer Repl.Handover.
 Import ListNotations.
 
 (* ---- ring refinement, all schedules of ring operations (Push / NewCursor / Pop / Head / Search / AddPoll / RemovePoll /
@@ -155,3 +157,105 @@ Theorem C09_sync_F3_refuted :
 Proof. exact sync_F3_refuted. Qed.
 Goal True. idtac "ASSUMPTIONS-OF C09_sync_F3_refuted". Abort.
 Print Assumptions C09_sync_F3_refuted.
+
+(* ---- Aof.PushLock publishes to the ring in append-file order.  All interleavings (every list of actions is a schedule;
+        a blocked shard stutters), any number of shards and records, rotations at any append: with the hand-over
+        `replGlock.Lock(); aofGlock.Unlock()` the ring is the file minus at most the two records that are inside PushLock,
+        in file order; equal when no shard is inside; persisted ids strictly increase in (index, offset). ---- *)
+Theorem C09_handover_ring_is_file : forall sched,
+  let s := hrun true hinit sched in
+  (exists q, hfile s = hring s ++ q /\ length q <= 2) /\
+  hring s = firstn (length (hring s)) (hfile s) /\
+  (quiescent s -> hring s = hfile s) /\
+  ids_inc (hfile s).
+Proof. exact handover_ring_is_file. Qed.
+Goal True. idtac "ASSUMPTIONS-OF C09_handover_ring_is_file". Abort.
+Print Assumptions C09_handover_ring_is_file.
+
+(* non-vacuity: three shards, a rotation after the second record, interleaved; everybody has left PushLock *)
+Example C09_handover_schedule_runs :
+  let t k p rot := mkA k 7 p rot in
+  let sched := [t 0 1 false; t 1 2 false; t 0 1 false; t 0 1 false; t 1 2 true; t 0 1 false; t 1 2 true; t 2 3 false; t 0 1 false; t 1 2 true;
+                t 0 1 false; t 1 2 true; t 2 3 false; t 1 2 true; t 2 3 false; t 1 2 true; t 2 3 false; t 2 3 false; t 2 3 false; t 2 3 false] in
+  let s := hrun true hinit sched in
+  quiescent s /\ map rid_of (hring s) = [mkId 1 1 7; mkId 1 2 7; mkId 2 1 7] /\ map rpay (hfile s) = [1; 2; 3]%N.
+Proof. vm_compute. repeat split. Qed.
+
+(* full transfer bounded by the ring's head at the handshake + live stream from that record on: whatever happens before
+   the handshake, between handshake and sendFiles, and afterwards, the follower receives the ring, which is the file *)
+Theorem C09_handover_full_transfer_gapfree : forall before mid after R0 h,
+  let s1 := hrun true hinit before in
+  let s2 := hrun true s1 mid in
+  let s3 := hrun true s2 after in
+  hring s1 = R0 ++ [h] ->
+  send_files CmpLex (hfile s2) (rid_of h) = R0 /\
+  send_files CmpLex (hfile s2) (rid_of h) ++ skipn (length R0) (hring s3) = hring s3 /\
+  hring s3 = firstn (length (hring s3)) (hfile s3) /\
+  (quiescent s3 -> send_files CmpLex (hfile s2) (rid_of h) ++ skipn (length R0) (hring s3) = hfile s3).
+Proof. exact handover_full_transfer_gapfree. Qed.
+Goal True. idtac "ASSUMPTIONS-OF C09_handover_full_transfer_gapfree". Abort.
+Print Assumptions C09_handover_full_transfer_gapfree.
+
+Example C09_handover_full_transfer_reachable :
+  let t k p := mkA k 7 p false in
+  let before := [t 0 1; t 0 1; t 0 1; t 0 1; t 0 1; t 0 1; t 1 2; t 1 2; t 1 2; t 1 2; t 1 2] in
+  exists R0 h, hring (hrun true hinit before) = R0 ++ [h] /\ rpay h = 2%N /\ map rpay R0 = [1%N].
+Proof. exists [mkRec (mkId 1 1 7) 1], (mkRec (mkId 1 2 7) 2). vm_compute. repeat split. Qed.
+
+(* the statement order `aofGlock.Unlock(); replGlock.Lock()`: two shards, ring = #2 #1, file = #1 #2; a follower whose
+   handshake finds #1 at the head never receives #2; the same schedule under hand-over keeps the order *)
+Theorem C09_handover_swapped_refuted :
+  let s := hrun false hinit swap_sched in
+  quiescent s /\ (forall t, hpc s t = Idle) /\
+  map rpay (hfile s) = [1; 2]%N /\ map rpay (hring s) = [2; 1]%N /\ hring s <> hfile s /\
+  (let s1 := hrun false hinit swap_sched in
+   exists R0 h, hring s1 = R0 ++ [h] /\ rpay h = 1%N /\
+     map rpay (send_files CmpLex (hfile s) (rid_of h) ++ skipn (length R0) (hring s)) = [1%N]) /\
+  map rpay (hring (hrun true hinit swap_sched)) = map rpay (firstn 1 (hfile (hrun true hinit swap_sched))).
+Proof. exact swapped_refuted. Qed.
+Goal True. idtac "ASSUMPTIONS-OF C09_handover_swapped_refuted". Abort.
+Print Assumptions C09_handover_swapped_refuted.
+
+(* ---- the boundary of the full transfer on logs with rotation (offsets restart in every file).  For every log whose
+        ids increase in (index, offset) and every boundary record k: sendFiles with the lexicographic test delivers
+        exactly log[0,k), so transferred ++ live stream from k = the log; a boundary above every id (empty ring)
+        transfers everything.  Second statement: the same for the leader of the protocol model at every moment of every
+        schedule (any configuration), whose l_send_file decides by the same test. ---- *)
+Theorem C09_transfer_then_live_is_log : forall l k h, ids_inc l -> nth_error l k = Some h ->
+  send_files CmpLex l (rid_of h) = firstn k l /\ send_files CmpLex l (rid_of h) ++ skipn k l = l.
+Proof. exact (fun l k h S H => conj (send_files_lex_prefix l k h S H) (transfer_then_live_is_log l k h S H)). Qed.
+Goal True. idtac "ASSUMPTIONS-OF C09_transfer_then_live_is_log". Abort.
+Print Assumptions C09_transfer_then_live_is_log.
+
+Theorem C09_transfer_sync_leader : forall c acts k h,
+  let L := ld (Sync.run c Sync.init_state acts) in
+  nth_error (log L) k = Some h ->
+  send_files CmpLex (log L) (rid_of h) ++ skipn k (log L) = log L /\
+  send_files CmpLex (log L) (mkId (fidx L) (foff L + 1) 0) = log L.
+Proof. exact sync_transfer_then_live_is_log. Qed.
+Goal True. idtac "ASSUMPTIONS-OF C09_transfer_sync_leader". Abort.
+Print Assumptions C09_transfer_sync_leader.
+
+Example C09_transfer_rotated_log :
+  ids_inc rot_log /\ nth_error rot_log 4 = Some (mkRec (mkId 2 2 8) 5) /\
+  map rpay (send_files CmpLex rot_log (mkId 2 2 8)) = [1; 2; 3; 4]%N /\
+  (let L := ld (Sync.run code_cfg Sync.init_state [LAppend 7 1 0; LAppend 7 2 0; LRotate; LAppend 8 3 0; LAppend 8 4 0]) in
+   map (fun r => (xidx (rid_of r), xoff (rid_of r))) (log L) = [(1, 1); (1, 2); (2, 1); (2, 2)]%N).
+Proof. split; [exact rot_log_inc|]. vm_compute. repeat split. Qed.
+
+(* the offset-only test `lock.AofIndex > w.AofIndex || lock.AofOffset >= w.AofOffset`: equal to the lexicographic one while
+   every persisted record is in the boundary's file; refuted after one rotation (the follower gets #1 and #5 of 5) *)
+Theorem C09_transfer_offset_only_single_file : forall l w, (forall r, In r l -> xidx (rid_of r) = xidx w) ->
+  send_files CmpOffOnly l w = send_files CmpLex l w.
+Proof. exact send_files_offonly_single_file. Qed.
+Goal True. idtac "ASSUMPTIONS-OF C09_transfer_offset_only_single_file". Abort.
+Print Assumptions C09_transfer_offset_only_single_file.
+
+Theorem C09_transfer_offset_only_refuted :
+  ids_inc rot_log /\ nth_error rot_log 4 = Some (mkRec (mkId 2 2 8) 5) /\
+  map rpay (send_files CmpOffOnly rot_log (mkId 2 2 8) ++ skipn 4 rot_log) = [1; 5]%N /\
+  send_files CmpOffOnly rot_log (mkId 2 2 8) ++ skipn 4 rot_log <> rot_log /\
+  send_files CmpLex rot_log (mkId 2 2 8) ++ skipn 4 rot_log = rot_log.
+Proof. exact send_files_offonly_refuted. Qed.
+Goal True. idtac "ASSUMPTIONS-OF C09_transfer_offset_only_refuted". Abort.
+Print Assumptions C09_transfer_offset_only_refuted.
